@@ -135,7 +135,7 @@ func (p *printer) commentsHaveNewline(list []*ast.Comment) bool {
 			// not all comments on the same line
 			return true
 		}
-		if t := c.Text; len(t) >= 2 && (t[1] == '/' || strings.Contains(t, "\n")) {
+		if t := c.Text; isLineComment(t) || strings.Contains(t, "\n") {
 			return true
 		}
 	}
@@ -158,6 +158,13 @@ func (p *printer) nextComment() {
 	}
 	// no more comments
 	p.commentOffset = infinity
+}
+
+// isLineComment reports whether text is a comment that extends to the end of
+// its line: a //-style comment or an XGo #-style comment (any length >= 1).
+// Anything else is a /*-style comment.
+func isLineComment(text string) bool {
+	return len(text) > 0 && (text[0] == '#' || len(text) > 1 && text[1] == '/')
 }
 
 // commentBefore reports whether the current comment group occurs
@@ -312,12 +319,6 @@ func (p *printer) writeString(pos token.Position, s string, isLit bool) {
 		// tabwriter.Escape bytes since they do not appear in legal
 		// UTF-8 sequences.
 		p.output = append(p.output, tabwriter.Escape)
-		switch p.lastTok {
-		case token.CSTRING:
-			p.output = append(p.output, 'c')
-		case token.PYSTRING:
-			p.output = append(p.output, 'p', 'y')
-		}
 	}
 
 	if debug {
@@ -377,7 +378,7 @@ func (p *printer) writeCommentPrefix(pos, next token.Position, prev *ast.Comment
 		return
 	}
 
-	if pos.Line == p.last.Line && (prev == nil || prev.Text[1] != '/') {
+	if pos.Line == p.last.Line && (prev == nil || !isLineComment(prev.Text)) {
 		// comment on the same line as last item:
 		// separate with at least one separator
 		hasSep := false
@@ -475,7 +476,7 @@ func (p *printer) writeCommentPrefix(pos, next token.Position, prev *ast.Comment
 
 		// make sure there is at least one line break
 		// if the previous comment was a line comment
-		if n == 0 && prev != nil && prev.Text[1] == '/' {
+		if n == 0 && prev != nil && isLineComment(prev.Text) {
 			n = 1
 		}
 
@@ -660,8 +661,8 @@ func (p *printer) writeComment(comment *ast.Comment) {
 		p.indent = 0
 	}
 
-	// shortcut common case of //-style comments
-	if text[1] == '/' {
+	// shortcut common case of //-style (and #-style) comments
+	if isLineComment(text) {
 		p.writeString(pos, trimRight(text), true)
 		return
 	}
@@ -775,7 +776,7 @@ func (p *printer) intersperseComments(next token.Position, tok token.Token) (wro
 		// use that information to decide more directly.
 		needsLinebreak := false
 		if p.mode&noExtraBlank == 0 &&
-			last.Text[1] == '*' && p.lineFor(last.Pos()) == next.Line &&
+			!isLineComment(last.Text) && p.lineFor(last.Pos()) == next.Line &&
 			tok != token.COMMA &&
 			(tok != token.RPAREN || p.prevOpen == token.LPAREN) &&
 			(tok != token.RBRACK || p.prevOpen == token.LBRACK) {
@@ -785,9 +786,9 @@ func (p *printer) intersperseComments(next token.Position, tok token.Token) (wro
 				p.writeByte(' ', 1)
 			}
 		}
-		// Ensure that there is a line break after a //-style comment,
+		// Ensure that there is a line break after a //-style or #-style comment,
 		// before EOF, and before a closing '}' unless explicitly disabled.
-		if last.Text[1] == '/' ||
+		if isLineComment(last.Text) ||
 			tok == token.EOF ||
 			tok == token.RBRACE && p.mode&noExtraLinebreak == 0 {
 			needsLinebreak = true
@@ -947,6 +948,15 @@ func (p *printer) print(args ...any) {
 
 		case *ast.BasicLit:
 			data = x.Value
+			// c"..." and py"..." literals: Value holds the string part only.
+			// (The prefix must not be derived from p.lastTok in writeString:
+			// comments interspersed before the literal go through writeString too.)
+			switch x.Kind {
+			case token.CSTRING:
+				data = "c" + data
+			case token.PYSTRING:
+				data = "py" + data
+			}
 			isLit = true
 			impliedSemi = true
 			p.lastTok = x.Kind
